@@ -27,6 +27,8 @@ positions `k` in the history.  `run env ex ops` is the code model's trace; `even
 the events of call number `k` (the operation at position `k`).
 -/
 import TxdbusModel.Proofs.Obj.DispatchMain
+import TxdbusModel.Proofs.Obj.DispatchExt
+import TxdbusModel.Proofs.Obj.DispatchProps
 
 namespace Txdbus.Obj
 
@@ -465,6 +467,402 @@ theorem unexport_witness :
       [(0, some 1, []), (2, none, "org.freedesktop.DBus.Error.UnknownObject".toList), (4, some 1, [])] := by
   decide
 
+/-! ## 6b. Extension 2026-09-30: objects that come and go
+
+All theorems above are stated for histories that contain `exportObj` / `unexportObj` operations
+and judge a call against `exportsAt ex ops k`: what is exported AT THE MOMENT THE CALL ARRIVES.
+What is exported later plays no role - in particular for a call whose implementation returned a
+Deferred: the reply callbacks hold the call's serial and sender (`Pending`), not the object. -/
+
+/-- A Deferred that fires AFTER its object was unexported still produces the call's one reply.
+Call `k` (expects a reply) arrives while its path is exported and its implementation returns an
+unfired Deferred; operation `j > k` is `unexportObject(c.path)`; the Deferred first fires at
+operation `l > j`.  Then: right after operation `j` nothing is exported at the path (a new call
+there would be answered UnknownObject, `lookup_failure_reply`), and yet the replies to call `k`
+are exactly what `send_reply` / `send_error` make of the resolution - exactly one, addressed to
+the caller with the call's serial - and user code ran exactly once, at the time of the call. -/
+theorem deferred_after_unexport_one_reply (env : Env V) (ht : TextTotal env) (ex : Exports)
+    (ops : List (Op V)) (hwf : HistoryNamed ex ops) (k j l : Nat) (c : Call V) (b : Nat → Outcome V)
+    (hk : ops[k]? = some (.call c b)) (he : c.expectReply = true)
+    (f : Func) (m : Method) (hv : verdict (exportsAt ex ops k) c = .run f m)
+    (hd : b f.id = .deferred)
+    (hkj : k < j) (hu : ops[j]? = some (.unexportObj c.path))
+    (hjl : j < l) (res : Resolution V) (hl : ops[l]? = some (.resolve k res))
+    (hfirst : ∀ i, k < i → i < l → ∀ r, ops[i]? ≠ some (.resolve k r)) :
+    exported (exportsAt ex ops (j + 1)) c.path = none ∧
+    replies (eventsOf k (run env ex ops).2) = replies (fire env (pendingOf k c m) res) ∧
+    (replies (eventsOf k (run env ex ops).2)).length = 1 ∧
+    (∀ r ∈ replies (eventsOf k (run env ex ops).2), AddressedTo c r) ∧
+    invocations (eventsOf k (run env ex ops).2) = [expectedInvocation c f] := by
+  have hres : resultOf ops k (b f.id) = some res := by
+    rw [hd]
+    exact firstResolve_drop_at ops k l res (by omega) hl hfirst
+  have hrep : replies (eventsOf k (run env ex ops).2) = replies (fire env (pendingOf k c m) res) := by
+    rw [eventsOf_run, replies_run env ex ops k (hwf k) c b hk f m hv he, hres]
+  refine ⟨exportsAt_after_unexport ex ops j c.path hu, hrep, ?_, ?_, ?_⟩
+  · rw [hrep]; exact (fire_one env ht (pendingOf k c m) res).replies_length
+  · rw [hrep]; exact (fire_one env ht (pendingOf k c m) res).replyish.addressed
+  · rw [eventsOf_run, invocations_callEvents env ex ops k (hwf k) c b hk, hv]; rfl
+
+/-- Witness for `deferred_after_unexport_one_reply` (decide): the call runs user code and gets a
+Deferred, `/a` is unexported, a second call to `/a` is answered UnknownObject, then the Deferred of
+the first call fires with a value: the first call gets its one method return. -/
+theorem deferred_after_unexport_witness :
+    (run (Example.envWith fixRepaired) Example.exports
+        [.call Example.call (fun _ => .deferred), .unexportObj "/a".toList,
+         .call { Example.call with serial := 6 } (fun _ => .deferred),
+         .resolve 0 (.value (.single 42))] |>.2) =
+      [(0, .invoked 1 [] (some (some ":1.7".toList))),
+       (2, .sent (.err "org.freedesktop.DBus.Error.UnknownObject".toList 6 (some ":1.7".toList)
+                   "/a is not an object provided by this process.".toList)),
+       (0, .sent (.ret 5 (some ":1.7".toList) (some ['s']) (.vals [42])))] := by
+  decide
+
+/-! ## 6c. Extension 2026-09-30: the calls the handler answers itself
+
+`at_most_one_reply`, `exactly_one_if_expected` and `reply_addressing` hold for EVERY call, the
+built-in ones included (verdict `builtin _`).  What exactly is sent for them, which of them need
+an object at the path and which do not, is `builtin_reply`.  None of the three looks at the
+signature or the body of the call, and none of them looks at the NO_REPLY_EXPECTED flag. -/
+
+theorem pairs_distinct :
+    peerPair ≠ introspectPair ∧ peerPair ≠ managedPair ∧ introspectPair ≠ managedPair := by decide
+
+theorem isPair_unique (c : Call V) (p q : Str × Str) (hpq : p ≠ q) (hp : isPair c p = true) :
+    isPair c q = false := by
+  cases hq : isPair c q with
+  | false => rfl
+  | true =>
+    exfalso
+    apply hpq
+    have h1 := (isPair_iff c p).mp hp
+    have h2 := (isPair_iff c q).mp hq
+    obtain ⟨a1, a2⟩ := p
+    obtain ⟨b1, b2⟩ := q
+    simp only at h1 h2
+    have e1 : a1 = b1 := by have := h1.1.symm.trans h2.1; simpa using this
+    have e2 : a2 = b2 := h1.2.symm.trans h2.2
+    rw [e1, e2]
+
+/-- The calls `handleMethodCallMessage` answers itself, in the code's order.
+* `org.freedesktop.DBus.Peer.Ping` is answered BEFORE the object lookup: an empty method return,
+  on any path, exported or not, with any signature.
+* `org.freedesktop.DBus.Introspectable.Introspect` is answered before the object lookup when the
+  path is a node of the exported tree (exported itself or an ancestor of an exported path): a
+  method return of signature `s` (the XML is C16's).  On any other path it FALLS THROUGH to the
+  object lookup, which fails: UnknownObject.
+* `org.freedesktop.DBus.ObjectManager.GetManagedObjects` NEEDS the object: UnknownObject when the
+  path is not exported (an ancestor is not enough); otherwise a method return of signature
+  `a{oa{sa{sv}}}` (content: C16), or, when building it raises (repair C10-02), the error
+  `org.freedesktop.DBus.Error.Failed` carrying the exception text.
+In each case the events of the call are exactly that one message (no user code runs), carrying the
+call's serial and addressed to its sender. -/
+theorem builtin_reply (env : Env V) (ex : Exports) (ops : List (Op V)) (hwf : HistoryNamed ex ops)
+    (k : Nat) (c : Call V) (b : Nat → Outcome V) (hk : ops[k]? = some (.call c b)) :
+    (isPair c peerPair = true →
+      eventsOf k (run env ex ops).2 = [.sent (.ret c.serial c.sender none .empty)]) ∧
+    (isPair c introspectPair = true → nodeKnown (exportsAt ex ops k) c.path = true →
+      eventsOf k (run env ex ops).2 = [.sent (.ret c.serial c.sender (some introspectSig) (.xml c.path))]) ∧
+    (isPair c introspectPair = true → nodeKnown (exportsAt ex ops k) c.path = false →
+      eventsOf k (run env ex ops).2 = [unknownObjectErr c]) ∧
+    (isPair c managedPair = true → exported (exportsAt ex ops k) c.path = none →
+      eventsOf k (run env ex ops).2 = [unknownObjectErr c]) ∧
+    (isPair c managedPair = true → (exported (exportsAt ex ops k) c.path).isSome = true →
+      env.managedErr c.path = none →
+      eventsOf k (run env ex ops).2 = [.sent (.ret c.serial c.sender (some managedSig) (.managed c.path))]) ∧
+    (∀ e, isPair c managedPair = true → (exported (exportsAt ex ops k) c.path).isSome = true →
+      env.managedErr c.path = some e →
+      eventsOf k (run env ex ops).2 = [managedFailedErr c e] ∧
+      ∃ text, (managedFailedErr c e : Event V) =
+        .sent (.err "org.freedesktop.DBus.Error.Failed".toList c.serial c.sender text)) := by
+  rw [eventsOf_run, callEvents_eq env ex ops k (hwf k) c b hk]
+  obtain ⟨d1, d2, d3⟩ := pairs_distinct
+  refine ⟨?_, ?_, ?_, ?_, ?_, ?_⟩
+  · intro h1
+    have : verdict (exportsAt ex ops k) c = .builtin .ping := by unfold verdict; simp [h1]
+    rw [this]; rfl
+  · intro h2 hn
+    have h1 := isPair_unique c _ _ d1.symm h2
+    have : verdict (exportsAt ex ops k) c = .builtin .introspect := by unfold verdict; simp [h1, h2, hn]
+    rw [this]; rfl
+  · intro h2 hn
+    have h1 := isPair_unique c _ _ d1.symm h2
+    have ho : exported (exportsAt ex ops k) c.path = none := by
+      unfold nodeKnown at hn
+      simp only [Bool.or_eq_false_iff] at hn
+      cases h : exported (exportsAt ex ops k) c.path with
+      | none => rfl
+      | some o => simp [h] at hn
+    have : verdict (exportsAt ex ops k) c = .unknownObject := by unfold verdict; simp [h1, h2, hn, ho]
+    rw [this]; rfl
+  · intro h3 ho
+    have h1 := isPair_unique c _ _ d2.symm h3
+    have h2 := isPair_unique c _ _ d3.symm h3
+    have : verdict (exportsAt ex ops k) c = .unknownObject := by unfold verdict; simp [h1, h2, ho]
+    rw [this]; rfl
+  · intro h3 ho hm
+    have h1 := isPair_unique c _ _ d2.symm h3
+    have h2 := isPair_unique c _ _ d3.symm h3
+    cases hx : exported (exportsAt ex ops k) c.path with
+    | none => simp [hx] at ho
+    | some o =>
+      have : verdict (exportsAt ex ops k) c = .builtin .managed := by unfold verdict; simp [h1, h2, h3, hx]
+      rw [this]
+      simp [callInv, callReplies, expectedCall, laterEvents, callPending, hm]
+  · intro e h3 ho hm
+    have h1 := isPair_unique c _ _ d2.symm h3
+    have h2 := isPair_unique c _ _ d3.symm h3
+    cases hx : exported (exportsAt ex ops k) c.path with
+    | none => simp [hx] at ho
+    | some o =>
+      have : verdict (exportsAt ex ops k) c = .builtin .managed := by unfold verdict; simp [h1, h2, h3, hx]
+      rw [this]
+      have n4 : Gen.Dispatch.managedFailed.1 = "org.freedesktop.DBus.Error.Failed" := by decide
+      refine ⟨by simp [callInv, callReplies, expectedCall, laterEvents, callPending, hm],
+        renderText c [] e.text Gen.Dispatch.managedFailed.2, ?_⟩
+      simp only [managedFailedErr, errEvent, sendErr, n4]
+
+/-- Witnesses for `builtin_reply` (decide): Ping on a path nothing is exported at; Introspect on the
+ancestor `/` of `/a` and on the unrelated `/zz`; GetManagedObjects on `/` (an ancestor: not enough)
+and on `/a`; all with a signature that no such method has (`i`): it is not looked at. -/
+theorem builtin_witness :
+    (run (Example.envWith fixRepaired) Example.exports
+        [.call { Example.call with path := "/zz".toList, iface := some "org.freedesktop.DBus.Peer".toList,
+                                   member := "Ping".toList, sig := some ['i'], body := [7] } Example.raisesNul,
+         .call { Example.call with path := "/".toList, iface := some "org.freedesktop.DBus.Introspectable".toList,
+                                   member := "Introspect".toList } Example.raisesNul,
+         .call { Example.call with path := "/zz".toList, iface := some "org.freedesktop.DBus.Introspectable".toList,
+                                   member := "Introspect".toList } Example.raisesNul,
+         .call { Example.call with path := "/".toList, iface := some "org.freedesktop.DBus.ObjectManager".toList,
+                                   member := "GetManagedObjects".toList } Example.raisesNul,
+         .call { Example.call with iface := some "org.freedesktop.DBus.ObjectManager".toList,
+                                   member := "GetManagedObjects".toList, sig := some ['i'], body := [7],
+                                   expectReply := false } Example.raisesNul] |>.2).map
+      (fun e => match e.2 with
+        | .invoked _ _ _ => (e.1, "user code".toList)
+        | .sent (.err n _ _ _) => (e.1, n)
+        | .sent (.ret _ _ sg _) => (e.1, "ret ".toList ++ sg.getD ['-'])) =
+      [(0, "ret -".toList), (1, "ret s".toList), (2, "org.freedesktop.DBus.Error.UnknownObject".toList),
+       (3, "org.freedesktop.DBus.Error.UnknownObject".toList), (4, "ret a{oa{sa{sv}}}".toList)] := by
+  decide
+
+/-! ## 6d. Extension 2026-09-30: calls to org.freedesktop.DBus.Properties - composition with C17
+
+The dispatcher has no special case for the Properties interface (`Obj/DispatchProps.lean`): the
+call is looked up like any other and ends in one of three functions of `DBusObject`.  What those
+functions do is C17's model `Obj/Props.lean` (imported read-only): in the theorems below the
+behaviour of a history's calls is `libBehav L st c user` - C17's `opGet` / `opSet` / `opGetAll` in
+C17-state `st` for the three library functions, anything (`user`) for user code.  `st` is
+universally quantified: whatever C17's history made of the state, the dispatcher's reply is C17's
+outcome for that state.  All theorems of sections 1-6c hold for these histories too (they are
+histories): at most one reply, exactly one when expected, addressed to the caller, none for a
+no-reply call - for which `_dbus_PropertySet` STILL RUNS and changes the property (`runs_iff`). -/
+
+section PropsComposition
+
+open DispatchProps
+
+/-- THE COMPOSITION.  A call to `org.freedesktop.DBus.Properties` that expects a reply, on a path
+that is exported when the call arrives, to an object whose Properties interface is served by the
+library (`LibraryServes`), with the member's signature and arguments: the replies to the call,
+OBSERVED THE WAY C17 OBSERVES REPLIES (`obsMsg`: harness/c17.py `show_obs` / `err_cat`), are
+exactly one, and it is the outcome of C17's model - `Props.opGet` for Get (the variant's signature
+and value, or the error category), the reply part of `Props.opSet` for Set (C17's state moves to
+`(Props.opSet ..).1`, `DispatchProps.callStep`), `Props.opGetAll` for GetAll - up to `normOut`
+(the categories that only say "Python raised an exception" are one on the wire).
+The body of the reply is therefore no longer a parameter of the C10 model; with
+`reply_addressing` / `exactly_one_if_expected` the reply carries the call's serial and sender. -/
+theorem properties_call_reply_is_c17 (env : Env PV) (L : Lib) (henv : LibEnvOK env L) (st : Props.St)
+    (ex : Exports) (ops : List (Op PV)) (hwf : HistoryNamed ex ops) (k : Nat) (c : Call PV)
+    (user : Nat → Outcome PV) (hk : ops[k]? = some (.call c (libBehav L st c user)))
+    (he : c.expectReply = true) (o : Obj) (ho : exported (exportsAt ex ops k) c.path = some o)
+    (hserve : LibraryServes o) (hi : c.iface = some propsName) :
+    (∀ i p, c.member = getMember → c.sig.getD [] = "ss".toList → c.body = [.str i, .str p] →
+      (replies (eventsOf k (run env ex ops).2)).map obsMsg =
+        [some (normOut (Props.opGet L.cfg L.W st L.o i p))]) ∧
+    (∀ i p v, c.member = setMember → c.sig.getD [] = "ssv".toList → c.body = [.str i, .str p, .val v] →
+      (replies (eventsOf k (run env ex ops).2)).map obsMsg =
+        [some (normOut (replyOut (Props.opSet L.cfg L.W st L.o i p v).2))]) ∧
+    (∀ i, c.member = getAllMember → c.sig.getD [] = "s".toList → c.body = [.str i] →
+      (replies (eventsOf k (run env ex ops).2)).map obsMsg =
+        [some (normOut (Props.opGetAll L.cfg L.W st L.o i))]) := by
+  obtain ⟨s1, s2, s3⟩ := hserve
+  refine ⟨?_, ?_, ?_⟩
+  · intro i p hm hsig hb
+    obtain ⟨m, hso, hr⟩ := replies_props_served env ex ops hwf k c _ hk he o ho _ _ _ _ s1 hi hm hsig L _
+      (libBehav_get L st c user i p hb)
+    rw [hr]
+    exact fireOutcome_obs env L henv _ _ (opGet_isReply ..) (by
+      show sigFits m.sigOut _
+      rw [hso]; exact opGet_sigFits ..)
+  · intro i p v hm hsig hb
+    obtain ⟨m, hso, hr⟩ := replies_props_served env ex ops hwf k c _ hk he o ho _ _ _ _ s2 hi hm hsig L _
+      (libBehav_set L st c user i p v hb)
+    rw [hr]
+    exact fireOutcome_obs env L henv _ _ (opSet_isReply ..) (by
+      show sigFits m.sigOut _
+      rw [hso]; exact opSet_sigFits ..)
+  · intro i hm hsig hb
+    obtain ⟨m, hso, hr⟩ := replies_props_served env ex ops hwf k c _ hk he o ho _ _ _ _ s3 hi hm hsig L _
+      (libBehav_getAll L st c user i hb)
+    rw [hr]
+    exact fireOutcome_obs env L henv _ _ (opGetAll_isReply ..) (by
+      show sigFits m.sigOut _
+      rw [hso]; exact opGetAll_sigFits ..)
+
+/-- Error names AS THE CODE GIVES THEM.  When C17's outcome of a Properties.Get call is one of the
+errors the code decides by itself - the object has no such property; the property is write-only -
+the reply is exactly the error `org.txdbus.PythonException.Exception` with the code's text
+(`Invalid Property`, `Property is not readable`; names and texts are probed from the source,
+`builtin_table_shape`), carrying the call's serial and sender.  (Set: `Invalid Property`,
+`Property is not Writeable`; GetAll: `Invalid Interface` - same proof, same table.) -/
+theorem properties_get_error_exact (env : Env PV) (L : Lib) (henv : LibEnvOK env L) (st : Props.St)
+    (ex : Exports) (ops : List (Op PV)) (hwf : HistoryNamed ex ops) (k : Nat) (c : Call PV)
+    (user : Nat → Outcome PV) (hk : ops[k]? = some (.call c (libBehav L st c user)))
+    (he : c.expectReply = true) (o : Obj) (ho : exported (exportsAt ex ops k) c.path = some o)
+    (hserve : LibraryServes o) (hi : c.iface = some propsName)
+    (i p : Str) (hm : c.member = getMember) (hsig : c.sig.getD [] = "ss".toList)
+    (hb : c.body = [.str i, .str p]) :
+    (Props.opGet L.cfg L.W st L.o i p = .err .unknownProp →
+      replies (eventsOf k (run env ex ops).2) =
+        [.err "org.txdbus.PythonException.Exception".toList c.serial c.sender "Invalid Property".toList]) ∧
+    (Props.opGet L.cfg L.W st L.o i p = .err .notReadable →
+      replies (eventsOf k (run env ex ops).2) =
+        [.err "org.txdbus.PythonException.Exception".toList c.serial c.sender "Property is not readable".toList]) := by
+  obtain ⟨m, _, hr⟩ := replies_props_served env ex ops hwf k c _ hk he o ho _ _ _ _ hserve.1 hi hm hsig L _
+    (libBehav_get L st c user i p hb)
+  obtain ⟨n1, n2, _, _⟩ := table_texts_no_nul
+  constructor
+  · intro hout
+    rw [hr, hout, fireOutcome_err_exact env L henv _ .unknownProp n1]
+    have : pyExceptionPrefix ++ invalidProperty.cls = "org.txdbus.PythonException.Exception".toList := by decide
+    have t : invalidProperty.text = "Invalid Property".toList := by decide
+    simp only [excOfCat, this, t, pendingOf]
+  · intro hout
+    rw [hr, hout, fireOutcome_err_exact env L henv _ .notReadable n2]
+    have : pyExceptionPrefix ++ notReadable.cls = "org.txdbus.PythonException.Exception".toList := by decide
+    have t : notReadable.text = "Property is not readable".toList := by decide
+    simp only [excOfCat, this, t, pendingOf]
+
+/-- Properties calls that do not reach the library: on a path that is NOT exported when the call
+arrives the one event is the UnknownObject error - which C17 observes as `err unknownObject`, the
+answer of C17's own `step` for an object that was never exported; with a signature other than the
+member's declared one (`ss` / `ssv` / `s`) the one event is the InvalidArgs error and the library
+function does not run (nothing is read or written). -/
+theorem properties_lookup_errors (env : Env PV) (ex : Exports) (ops : List (Op PV)) (hwf : HistoryNamed ex ops)
+    (k : Nat) (c : Call PV) (b : Nat → Outcome PV) (hk : ops[k]? = some (.call c b))
+    (hi : c.iface = some propsName) :
+    (exported (exportsAt ex ops k) c.path = none →
+      eventsOf k (run env ex ops).2 = [unknownObjectErr c] ∧
+      (replies (eventsOf k (run env ex ops).2)).map obsMsg = [some (.err .unknownObject)]) ∧
+    (∀ o member id sigIn sigOut, exported (exportsAt ex ops k) c.path = some o →
+      serves o member id sigIn sigOut = true → c.member = member → c.sig.getD [] ≠ sigIn →
+      ∃ (m : Method) (text : Str), eventsOf k (run env ex ops).2 =
+        [.sent (.err "org.freedesktop.DBus.Error.InvalidArgs".toList c.serial c.sender text)] ∧
+        m.sigIn = sigIn ∧ invocations (eventsOf k (run env ex ops).2) = []) := by
+  obtain ⟨n0, n1, n2, n3⟩ := propsName_not_builtin
+  have hh : handledByHandler (exportsAt ex ops k) c = false := by
+    simp [handledByHandler, isPair_false_of_iface c _ _ hi n1, isPair_false_of_iface c _ _ hi n2,
+      isPair_false_of_iface c _ _ hi n3]
+  obtain ⟨l1, _, l3⟩ := lookup_failure_reply env ex ops hwf k c b hk hh
+  constructor
+  · intro ho
+    obtain ⟨h1, text, h2⟩ := l1 ho
+    refine ⟨h1, ?_⟩
+    rw [h1, h2]
+    have hu : ("org.freedesktop.DBus.Error.UnknownObject".toList : Str) = unknownObjectName := by decide
+    simp [replies, obsMsg, errCat, hu]
+  · intro o member id sigIn sigOut ho hs hm hsig
+    unfold serves at hs
+    cases hf : (declared o).find? (fun x => x.name = propsName) with
+    | none => simp [hf] at hs
+    | some i =>
+      simp only [hf] at hs
+      cases hmm : memberOf i member with
+      | none => simp [hmm] at hs
+      | some m =>
+        simp only [hmm, Bool.and_eq_true, beq_iff_eq] at hs
+        have ha : addressed o c = some (i, m) := by
+          unfold addressed
+          rw [addressedIface_named o c propsName n0 hi, hf, hm]
+          simp [hmm]
+        have hne : c.sig.getD [] ≠ m.sigIn := by rw [hs.1.1]; exact hsig
+        obtain ⟨h1, text, h2⟩ := l3 o i m ho ha hne
+        refine ⟨m, text, by rw [h1, h2], hs.1.1, ?_⟩
+        rw [h1, h2]; rfl
+
+/-- The generated table of the library part (`Gen/DispatchBuiltin.lean`, probed from the source on
+every run) names what the statement and C17 name. -/
+theorem builtin_table_shape :
+    Gen.DispatchBuiltin.propsIface = "org.freedesktop.DBus.Properties" ∧
+    Gen.DispatchBuiltin.baseIfaces =
+      [("org.freedesktop.DBus.Properties", [("Get", "ss", "v", 1), ("Set", "ssv", "", 0), ("GetAll", "s", "a{sv}", 1)])] ∧
+    Gen.DispatchBuiltin.propsIface = Gen.C17Props.propsIface ∧
+    Gen.DispatchBuiltin.baseIfaces.flatMap (fun i => i.2.map fun m => (m.1, m.2.1, m.2.2.1)) = Gen.C17Props.propsMethods ∧
+    Gen.DispatchBuiltin.invalidProperty = ("Exception", "Invalid Property") ∧
+    Gen.DispatchBuiltin.notReadable = ("Exception", "Property is not readable") ∧
+    Gen.DispatchBuiltin.notWritable = ("Exception", "Property is not Writeable") ∧
+    Gen.DispatchBuiltin.invalidInterface = ("Exception", "Invalid Interface") ∧
+    (Gen.DispatchBuiltin.getReplySig, Gen.DispatchBuiltin.setReplySig, Gen.DispatchBuiltin.getAllReplySig) = ("v", "", "a{sv}") ∧
+    Gen.DispatchBuiltin.wrongSignatureError = Gen.Dispatch.invalidArgs.1 ∧
+    Gen.DispatchBuiltin.unexportedError = Gen.Dispatch.unknownObject.1 := by
+  refine ⟨by decide, by decide, by decide, by decide, by decide, by decide, by decide, by decide, by decide,
+    by decide, by decide⟩
+
+namespace Example
+
+/-- a user class with one interface `org.p` (properties only: no methods) on top of `DBusObject` -/
+def propObj : Obj :=
+  { classes := [{ ifaces := some [{ name := "org.p".toList, methods := [] }], attrs := [] }, baseClass] }
+
+def propExports : Exports := [("/p".toList, propObj)]
+
+/-- C17's side of it: property `v` of type `s`, read-write, attribute `v` -/
+def propDecls : Props.Decls :=
+  [{ ifaces := [{ name := "org.p".toList,
+                  props := [("v".toList, { name := "v".toList, sig := ['s'], access := .readwrite, emits := .no })] }],
+     descs := [{ attr := "v".toList, pname := "v".toList, iface := some "org.p".toList }] }]
+
+def propWorld : Props.World := (Props.elaborate propDecls).getD ⟨[], [], []⟩
+
+def propLib : Lib :=
+  { cfg := Props.Cfg.repaired, W := propWorld, o := 0,
+    vexc := { cls := "ValueError".toList, errName := none, text := [] } }
+
+def propEnv : Env PV :=
+  { encErr := fun _ _ => none, managedErr := fun _ => none, ofSeq := fun _ => .other 0,
+    validErr := fun _ => true, textFix := fixRepaired }
+
+/-- C17-state: object 0 exported, `v = 'hello'` -/
+def propSt : Props.St :=
+  (Props.runFrom Props.Cfg.repaired propWorld Props.St.init [.export 0, .assign 0 "v".toList (.str "hello".toList)])
+
+def getCall (p : String) : Call PV :=
+  { path := "/p".toList, iface := some propsName, member := getMember, sig := some "ss".toList,
+    sender := some ":1.7".toList, serial := 9, expectReply := true,
+    body := [.str "org.p".toList, .str p.toList] }
+
+end Example
+
+/-- Witness (decide): Properties.Get of an existing and of a missing property through the
+dispatcher, the library function running C17's model: the variant `s 'hello'`, then the error
+`org.txdbus.PythonException.Exception: Invalid Property`; both addressed to the caller. -/
+theorem properties_witness :
+    (run Example.propEnv Example.propExports
+        [.call (Example.getCall "v") (libBehav Example.propLib Example.propSt (Example.getCall "v") fun _ => .deferred),
+         .call (Example.getCall "w") (libBehav Example.propLib Example.propSt (Example.getCall "w") fun _ => .deferred)]
+      |>.2).filterMap (fun e => match e.2 with | .sent m => some (e.1, m) | _ => none) =
+      [(0, .ret 9 (some ":1.7".toList) (some ['v']) (.vals [.variant ['s'] (.str "hello".toList)])),
+       (1, .err "org.txdbus.PythonException.Exception".toList 9 (some ":1.7".toList) "Invalid Property".toList)] := by
+  decide
+
+example : LibraryServes Example.propObj := by decide
+
+example : LibEnvOK Example.propEnv Example.propLib :=
+  { enc := fun _ _ => rfl, fix := rfl, valid := fun _ => rfl, vname := rfl, vcls := by decide }
+
+end PropsComposition
+
 /-! ## 7. The hypotheses are satisfiable -/
 
 example : NamedIfaces Example.exports := by unfold NamedIfaces; decide
@@ -479,6 +877,24 @@ example : HistoryNamed Example.exports
     obtain ⟨_, h⟩ := h
     subst h
     decide
+
+/-- the hypotheses of `deferred_after_unexport_one_reply` hold for the witness history (k = 0, j = 1, l = 3) -/
+example :
+    (replies (eventsOf 0 (run (Example.envWith fixRepaired) Example.exports
+      [.call Example.call (fun _ => .deferred), .unexportObj "/a".toList,
+       .call { Example.call with serial := 6 } (fun _ => .deferred),
+       .resolve 0 (.value (.single 42))]).2)).length = 1 := by
+  refine (deferred_after_unexport_one_reply (Example.envWith fixRepaired) (fun _ => rfl) Example.exports _
+    ?_ 0 1 3 Example.call (fun _ => .deferred) rfl rfl
+    { id := 1, deco := none, params := ["self".toList, "dbusCaller".toList] }
+    { name := "one".toList, sigIn := [], sigOut := ['s'], nret := 1 } (by decide) rfl (by decide) rfl (by decide)
+    (.value (.single 42)) rfl ?_).2.2.1
+  · apply historyNamed_of
+    · unfold NamedIfaces; decide
+    · intro path o h; simp at h
+  · intro i h1 h2 r
+    have : i = 1 ∨ i = 2 := by omega
+    rcases this with h | h <;> subst h <;> simp
 
 example : TextTotal (Example.envWith fixRepaired) := fun _ => rfl
 
@@ -509,6 +925,17 @@ end Txdbus.Obj
 #print axioms Txdbus.Obj.source_send_error_total
 #print axioms Txdbus.Obj.unbound_witness
 #print axioms Txdbus.Obj.unexport_witness
+#print axioms Txdbus.Obj.deferred_after_unexport_one_reply
+#print axioms Txdbus.Obj.deferred_after_unexport_witness
+#print axioms Txdbus.Obj.pairs_distinct
+#print axioms Txdbus.Obj.isPair_unique
+#print axioms Txdbus.Obj.builtin_reply
+#print axioms Txdbus.Obj.builtin_witness
+#print axioms Txdbus.Obj.properties_call_reply_is_c17
+#print axioms Txdbus.Obj.properties_get_error_exact
+#print axioms Txdbus.Obj.properties_lookup_errors
+#print axioms Txdbus.Obj.builtin_table_shape
+#print axioms Txdbus.Obj.properties_witness
 #print axioms Txdbus.Obj.result_encoding
 #print axioms Txdbus.Obj.unencodable_value_one_error
 #print axioms Txdbus.Obj.error_reply_name
